@@ -10,7 +10,7 @@ import random
 import re
 
 HOSTILE = "<b>&\"'"
-STR_TAGS = {"": "", "a": "a", "b": "b", "c": "c", "h": HOSTILE, "h2": "]]>&amp;<!--", "sp": " ", "u": "é", "u0": "u"}
+STR_TAGS = {"": "", "a": "a", "p": "p", "b": "b", "c": "c", "h": HOSTILE, "h2": "]]>&amp;<!--", "sp": " ", "u": "é", "u0": "u"}
 TAGNAMES = ["div", "span", "p", "ul", "li", "em", "b", "i", "td", "tr"]
 
 
@@ -32,6 +32,13 @@ class Html:
 
     def __str__(self):
         raise AssertionError("__str__ of an __html__ object must not be used")
+
+
+class WithAttr:
+    a = "p"
+
+    def __getitem__(self, k):
+        raise AssertionError("item lookup must not be tried when the attribute exists")
 
 
 class Falsy:
@@ -109,15 +116,19 @@ class ValueFactory:
             self.back[id(o)] = (o, v)
             return o
         if t == "dict":
-            o = {STR_TAGS.get(kv["k"]["s"], kv["k"]["s"]) if isinstance(kv["k"], dict) else kv["k"]: self.make(kv["v"])
+            o = {kv["k"]: self.make(kv["v"])
                  for kv in v["kvs"]}
             self.back[id(o)] = (o, v)
             return o
+        if t == "char":
+            return STR_TAGS[v["s"]][v["n"] - 1]
+        if t == "byte":
+            return STR_TAGS[v["s"]].encode("utf-8")[v["n"] - 1]
         if t == "builtin":
             import builtins
             return getattr(builtins, v["n"])
         if t == "obj":
-            o = {"plain": Plain, "html": Html, "falsy": Falsy}[v["kind"]]()
+            o = {"plain": Plain, "html": Html, "falsy": Falsy, "attr": WithAttr}[v["kind"]]()
             self.back[id(o)] = (o, v)
             return o
         raise ValueError(v)
@@ -166,6 +177,13 @@ def expr_text(e, ctx=None):
         return "exists: " + expr_text(e["e"])
     if x == "dflt":
         return "default"
+    if x == "wrap":
+        inner = expr_text(e["e"])
+        return {"lambda": "(lambda: %s)()", "lamarg": "(lambda x, len=None: x)(%s)", "listcomp": "[%s for _z in (1,)][0]",
+                "genexp": "list(%s for _z in (1,))[0]", "cond": "(%s if True else None)", "dictitem": "{'k': %s}['k']",
+                "setcomp": "list({_z: %s for _z in (1,)}.values())[0]", "paren": "(%s)"}[e["w"]] % inner
+    if x == "attr":
+        return "%s.%s" % (expr_text(e["e"]), e["a"])
     if x == "err":
         return {"type": "error.type.__name__", "lineno": "error.lineno", "offset": "error.offset",
                 "value": "type(error.value).__name__"}[e["f"]]
